@@ -7,6 +7,8 @@ cd "$(dirname "$0")/.."
 OUT=seeded/results.jsonl.tmp; : > $OUT
 for d in ${MUTANTS:-seeded/*/}; do
   id=$(basename $d); prop=${id%%-*}
+  # a change written against one property may first violate a clause another property owns: meta.json names the check
+  cp=$(python3 -c "import json,sys;print(json.load(open('$d/meta.json')).get('check_property',''))" 2>/dev/null); [ -n "$cp" ] && prop=$cp
   out=$(TAIL=60 ./tools/trymutant.sh $d/patch.diff $prop "$@" 2>&1)
   python3 - "$id" "$prop" >> $OUT <<PY
 import sys,re,json
